@@ -193,6 +193,10 @@ def run(ctx):
     cy = res.clause('C19.f', 'R-ABSINT', 'the equalizer hands each recording to a worker at most once (shared with C13.e)', floor=1)
     from . import c13
     c13.dispatch_once_clause(ctx, res, cy, 'C19', 'C19.f')
+    # ---- C19.g the categories and the explicit ids are stored as given (order preserved)
+    from . import common
+    cg = res.clause('C19.g', 'R-PROV', 'categories and explicit ids are stored as the caller gave them', floor=2)
+    common.ctor_params_clause(ctx, res, cg, 'C19', 'C19.g', 'PlaybackStudio', params=['categories', 'recording_ids'])
     return res
 
 
